@@ -1229,6 +1229,17 @@ func (e *Engine) safeOf(t *Term, depth int) *Term {
 // opaqueHere: the package of the function under verification declares the
 // spec function opaque.
 func (e *Engine) opaqueHere(x *exec, name string) bool {
+	// "opaque <specfn> ..." as a clause of the function under verification:
+	// opaque in the proof of that function only
+	if b := x.topExec().contract; b != nil {
+		for _, cl := range b.Of("opaquefn") {
+			for _, n := range strings.Fields(cl.Text) {
+				if n == name {
+					return true
+				}
+			}
+		}
+	}
 	pk := e.P.PkgOf(x.topExec().fn)
 	if pk == nil {
 		return false
